@@ -83,6 +83,8 @@ def build_env(spec):
         import lerax.env.classic_control as M
 
         kw["solver"] = {"Euler": diffrax.Euler, "Tsit5": diffrax.Tsit5, "Heun": diffrax.Heun}[kw.pop("solver", "Tsit5")]()
+        if kw.pop("adaptive", False):
+            kw["stepsize_controller"] = diffrax.PIDController(rtol=1e-5, atol=1e-5)
     elif base in G1:
         import lerax.env.unitree.g1 as M
     else:
@@ -354,7 +356,7 @@ def judge_batch(ctx, env, spec, out, acts, sampled, drv, K, T, succ):
         # a base env whose *terminal* states leave its own box is a mechanism of its own
         suffix = "-at-episode-end-successor" if (sname == "episode-end-successor" and own_o == base) else ""
         if j["structural"]:
-            ctx.violation(f"{own_o}-obs-not-of-declared-shape-or-dtype{suffix}",
+            ctx.violation(f"{own_o}-obs-not-of-declared-shape-or-dtype",
                           {"stack": name, "stream": sname, "problem": j["structural"], "spec": spec})
             continue
         ctx.monitor("bound_touches", int(j["touch"].sum()))
@@ -529,6 +531,18 @@ def static_checks(ctx, env, spec):
         ctx.violation(f"{base}-reset-or-step-not-traceable", {"stack": name, "error": repr(e)[-400:], "spec": spec})
         return
     ctx.monitor("typed_signatures_checked")
+    inner = _layers(env)[-1]
+    if inner is not env:
+        # attribute a mismatch to the layer that causes it: the bare env against its own declared space first
+        bm = space_model(inner.observation_space)
+        try:
+            bo = eqx.filter_eval_shape(lambda k: inner.reset(key=k), jr.key(0))[1]
+            if bm is not None and (tuple(bo.shape) != bm["shape"] or (bm["kind"] == "box" and bo.dtype != bm["dtype"])):
+                ctx.violation(f"{base}-obs-not-of-declared-shape-or-dtype",
+                              {"stack": name, "where": "bare env reset (abstract)", "spec": spec,
+                               "problem": f"{tuple(bo.shape)} {bo.dtype} != declared {bm['shape']} {bm.get('dtype')}"})
+        except Exception:  # noqa: BLE001  (the wrapped stack traced fine; nothing to add)
+            pass
     for tag, o in (("reset", o0), ("step", ss[1])):
         bad = None
         if not hasattr(o, "shape") or tuple(o.shape) != om["shape"]:
@@ -571,7 +585,7 @@ def documented_space_check(ctx, env, spec):
     base, kw = spec["base"], spec.get("kw", {})
     om, am = space_model(env.observation_space), space_model(env.action_space)
     key = f"{base.lower()}-declared-space-differs-from-documentation"
-    if base in DOC_CLASSIC and set(kw) <= {"solver"}:
+    if base in DOC_CLASSIC and set(kw) <= {"solver", "adaptive"}:
         lo, hi, act = DOC_CLASSIC[base]
         ctx.monitor("documented_spaces_compared")
         ok = om["kind"] == "box" and om["shape"] == (len(lo),) and np.allclose(om["low"], lo, rtol=1e-6) and np.allclose(om["high"], hi, rtol=1e-6)
@@ -688,7 +702,7 @@ class Runner:
         t0 = time.time()
         ctx.monitor("rollouts_run")
         ctx.monitor("env_steps", K * T)
-        judge_batch(ctx, env, spec, out, acts, sampled, drv, K, T, self.succ)
+        judge_batch(ctx, env, dict(spec, rollout_seed=seed, K=K), out, acts, sampled, drv, K, T, self.succ)
         tm["judge"] += time.time() - t0
         t0 = time.time()
 
@@ -795,6 +809,12 @@ def _cc_params(rng, base):
     raise ValueError(base)
 
 
+def _rmm(rng, d):
+    """Random per-dimension target range for RescaleObservation."""
+    lo = np.round(rng.uniform(-5, 1, size=d), 2)
+    return {"min": [float(x) for x in lo], "max": [float(x) for x in lo + np.round(rng.uniform(0.3, 8, size=d), 2)]}
+
+
 def _cc_stacks(ctx, base):
     """(spec, number of extra constructor variants that reuse the compiled program, rebuild?, child?)"""
     rng = ctx.rng
@@ -805,8 +825,7 @@ def _cc_stacks(ctx, base):
     tl = lambda: ["TimeLimit", {"n": int(rng.choice([50, 200, 1000]))}]  # noqa: E731
 
     def rmm(d):
-        lo = np.round(rng.uniform(-5, 1, size=d), 2)
-        return {"min": [float(x) for x in lo], "max": [float(x) for x in lo + np.round(rng.uniform(0.3, 8, size=d), 2)]}
+        return _rmm(rng, d)
 
     S = []
     S.append(({"base": base, "kw": {"solver": "Tsit5"}, "wrappers": [tl()] if never else []}, 1, True, False))
@@ -814,7 +833,7 @@ def _cc_stacks(ctx, base):
     S.append(({"base": base, "kw": {"solver": "Euler"}, "wrappers": [["Identity", {}], ["ClipObservation", {}], tl()]}, ctx.n(1, 4), True, False))
     if bounded_obs:
         S.append(({"base": base, "kw": {"solver": "Euler"}, "wrappers": [["RescaleObservation", {}], ["TimeLimit", {"n": 1000}]]}, ctx.n(1, 3), False, False))
-        S.append(({"base": base, "kw": {"solver": "Tsit5"}, "wrappers": [["RescaleObservation", rmm(od)]] + ([tl()] if never else [])}, 0, False, False))
+        S.append(({"base": base, "kw": {"solver": "Tsit5"}, "wrappers": [["RescaleObservation", rmm(od)]] + ([tl()] if never else [])}, ctx.n(2, 6), False, False))
     S.append(({"base": base, "kw": {"solver": "Tsit5"}, "wrappers": [["FlattenObservation", {}], ["ClipReward", {}], tl()]}, 1, True, False))
     if box_act:
         S.append(({"base": base, "kw": {"solver": "Euler"}, "wrappers": [["ClipAction", {}], tl()]}, 1, False, False))
@@ -844,6 +863,7 @@ def _cc_stacks(ctx, base):
         S.append(({"base": base, "kw": {"solver": str(rng.choice(["Euler", "Tsit5"]))}, "wrappers": w}, 0, False, False))
     if not ctx.quick:
         S.append(({"base": base, "kw": {"solver": "Heun"}, "wrappers": [tl()]}, 2, True, False))
+        S.append(({"base": base, "kw": {"solver": "Tsit5", "adaptive": True}, "wrappers": [tl()]}, 2, False, False))
     return S
 
 
@@ -853,7 +873,11 @@ def u_classic(ctx, base):
     for spec, nvar, rebuild, child in _cc_stacks(ctx, base):
         run.run(spec, K, T, rebuild=rebuild, child=child)
         for _ in range(nvar):
-            v = dict(spec, kw=dict(spec["kw"], **_cc_params(ctx.rng, base)))
+            # same static structure (same compiled program), other array leaves: constructor thresholds, and the
+            # target range of a RescaleObservation with explicit per-dimension bounds
+            v = dict(spec, kw=dict(spec["kw"], **_cc_params(ctx.rng, base)),
+                     wrappers=[[w[0], _rmm(ctx.rng, len(w[1]["min"]))] if w[0] == "RescaleObservation" and "min" in w[1] else w
+                               for w in spec["wrappers"]])
             run.run(v, K, T, static=False)
     run.finish()
     for m in ("observations_checked", "episode_ends", "sampled_actions_checked", "contains_agreement_eager",
